@@ -218,6 +218,49 @@ Lemma link_sk_rpc_addunary : C02_Gen.sk_rpc_addunary =
    "append"]%string.
 Proof. reflexivity. Qed.
 
+(* ------------------------------------------------------------------ public middleware plumbing; logging helper of the error paths *)
+(* ToMiddleware: the guard constructor is applied ONCE, when the middleware is applied to a route handler; its ServeHTTP is the result *)
+Lemma link_sk_tomiddleware : C02_Gen.sk_tomiddleware =
+  [
+   "handler"; "return"; "return"]%string.
+Proof. reflexivity. Qed.
+
+(* WithMiddleware: middleware(route.Handler) once per route *)
+Lemma link_sk_withmiddleware : C02_Gen.sk_withmiddleware =
+  [
+   "len"; "make"; "middleware"; "return"]%string.
+Proof. reflexivity. Qed.
+
+(* WithMiddlewares: WithMiddleware for each, last first *)
+Lemma link_sk_withmiddlewares : C02_Gen.sk_withmiddlewares =
+  [
+   "len"; "WithMiddleware"; "return"]%string.
+Proof. reflexivity. Qed.
+
+(* Server.Use: handed to the engine *)
+Lemma link_sk_use : C02_Gen.sk_use =
+  [
+   "s.ng.use"]%string.
+Proof. reflexivity. Qed.
+
+(* convertMiddleware: ware(next.ServeHTTP) once per bound route *)
+Lemma link_sk_convertmiddleware : C02_Gen.sk_convertmiddleware =
+  [
+   "ware"; "return"; "return"]%string.
+Proof. reflexivity. Qed.
+
+(* httpx.GetRemoteAddr: the X-Forwarded-For value as a whole if non-empty, else RemoteAddr -- no splitting, no indexing *)
+Lemma link_sk_getremoteaddr : C02_Gen.sk_getremoteaddr =
+  [
+   "r.Header.Get"; "len"; "return"; "return"]%string.
+Proof. reflexivity. Qed.
+
+(* internal.formatWithReq (used by every guard's error path): Sprintf of RequestURI, GetRemoteAddr and the text *)
+Lemma link_sk_formatwithreq : C02_Gen.sk_formatwithreq =
+  [
+   "httpx.GetRemoteAddr"; "fmt.Sprintf"; "return"]%string.
+Proof. reflexivity. Qed.
+
 (* ------------------------------------------------------------------ Exec's schedules are runs of the LTS *)
 Lemma h_drain_run recover fuel : forall s, exists ls, run recover ls s = Some (h_drain recover fuel s).
 Proof.
